@@ -36,9 +36,10 @@ theorem deLoop_refines (t : Ty) (hT : DeOKC o t) (hw : wf t = true) (hwC : wfC t
     ∀ (k offC offS j x : Nat), Rel cap offC offS → offS = off0 + x → Sums (resBits t) j x → j + k ≤ K + 1 →
       offS % align t = 0 →
       match deAllWith (deBits t) k ((bitsOf buf cap).drop offS) with
-      | .ok (vs, used) => ∃ off', deLoop (fun f => deAny o t (d0.add R) buf cap f) k offC = .ok (vs, off') ∧
-          Rel cap off' (offS + used)
-      | .error e => deLoop (fun f => deAny o t (d0.add R) buf cap f) k offC = .error (embedD e) := by
+      | .ok (vs, used) => ∃ off', deLoop (fun f => anyGuard o t none (d0.add R) f (deAny o t (d0.add R) buf cap f)) k offC
+            = .ok (vs, off') ∧ Rel cap off' (offS + used)
+      | .error e => deLoop (fun f => anyGuard o t none (d0.add R) f (deAny o t (d0.add R) buf cap f)) k offC
+            = .error (embedD e) := by
   intro k
   induction k with
   | zero =>
@@ -53,6 +54,7 @@ theorem deLoop_refines (t : Ty) (hT : DeOKC o t) (hw : wf t = true) (hwC : wfC t
     have h1 := hT hw hwC (d0.add R) buf cap offC hwf hcap hadmC (mod_align_of_rel hrel hal)
     rw [Rel.drop hcap hrel] at h1
     simp only [deAllWith, deLoop]
+    rw [anyGuard_ok o hs t none _ _ _ (mod_align_of_rel hrel hal) hadmC rfl]
     cases hsp : deBits t ((bitsOf buf cap).drop offS) with
     | error e =>
       rw [hsp] at h1
@@ -82,7 +84,7 @@ theorem deElems_refines (t : Ty) (hT : DeOKC o t) (hw : wf t = true) (hwC : wfC 
     (hwf : WF buf) (hcap : cap ≤ buf.length) (d0 R : AOff) (K : Nat)
     (hR : ∀ x, Sums (resBits t) K x → Adm R x) (count storN off : Nat) (hd0 : Adm d0 off)
     (hc : count ≤ storN) (hk : count ≤ K + 1) (hal : off % align t = 0) :
-    DeRefines (deElems o t (fun f => deAny o t (d0.add R) buf cap f) count storN buf cap off)
+    DeRefines (deElems o t (fun f => anyGuard o t none (d0.add R) f (deAny o t (d0.add R) buf cap f)) count storN buf cap off)
       (deAllWith (deBits t) count ((bitsOf buf cap).drop off)) cap off := by
   by_cases hb : t = .bool
   · subst hb
@@ -136,6 +138,7 @@ theorem deFields_refines : ∀ fs : List Ty, (∀ f ∈ fs, DeOKC o f) → wfAll
     have h1 := hT f (by simp) hw.1 hwC.1 (d.pad (align f)) buf cap offC1 hwf hcap hadmC
       (mod_align_of_rel hrel1 (padTo_mod (align_cases f) offS))
     rw [Rel.drop hcap hrel1] at h1
+    rw [anyGuard_ok o hs f none _ _ _ (mod_align_of_rel hrel1 (padTo_mod (align_cases f) offS)) hadmC rfl]
     cases hsp : deBits f ((bitsOf buf cap).drop (padTo (align f) offS)) with
     | error e =>
       rw [hsp] at h1
@@ -190,6 +193,7 @@ theorem deNth_refines : ∀ fs : List Ty, (∀ f ∈ fs, DeOKC o f) → wfAll fs
     cases k with
     | zero =>
       simp only [GenC.deNth, Dsdl.deNth]
+      rw [anyGuard_ok o hs f none _ _ _ (align_mod_of_mod8 f hal) hd rfl]
       exact hT f (by simp) hw.1 hwC.1 d buf cap off hwf hcap hd (align_mod_of_mod8 f hal)
     | succ k =>
       simp only [GenC.deNth, Dsdl.deNth]
@@ -209,13 +213,13 @@ theorem used_mod8 {t : Ty} (hw : wf t = true) (ha : align t = 8) :
 theorem deP_struct (fs : List Ty) (ih : ∀ f ∈ fs, DeP o f) : DeP o (.struct fs) := by
   have hfn : DeFnOKC o (.struct fs) := by
     intro hw hwC _
-    have e : deFn o (.struct fs) = topDe (maxBits (.struct fs)) (.struct (trivVals fs)) (fun b c =>
+    have e : deFn o (.struct fs) = topDe o (maxBits (.struct fs)) (.struct (trivVals fs)) (fun b c =>
         match GenC.deFields o fs true AOff.zero b c 0 with
         | .error e => .error e
         | .ok (vs, f) => .ok (.struct vs, f)) := by
       funext b c; simp only [deFn] <;> rfl
     rw [e]
-    apply topDe_fnOK _ _ _ (.struct fs) (fun bs =>
+    apply topDe_fnOK o _ _ _ (.struct fs) (fun bs =>
       match Dsdl.deFields fs bs 0 with
       | .ok (vs, off) => .ok (.struct vs, off)
       | .error e => .error e)
@@ -253,7 +257,7 @@ theorem deP_struct (fs : List Ty) (ih : ∀ f ∈ fs, DeP o f) : DeP o (.struct 
 theorem deP_union (fs : List Ty) (ih : ∀ f ∈ fs, DeP o f) : DeP o (.union fs) := by
   have hfn : DeFnOKC o (.union fs) := by
     intro hw hwC _
-    have e : deFn o (.union fs) = topDe (maxBits (.union fs)) (.union 0 (trivHead fs)) (fun b c =>
+    have e : deFn o (.union fs) = topDe o (maxBits (.union fs)) (.union 0 (trivHead fs)) (fun b c =>
         match deUint o (tagBits fs.length) AOff.zero b c 0 with
         | .error e => .error e
         | .ok k =>
@@ -265,7 +269,7 @@ theorem deP_union (fs : List Ty) (ih : ∀ f ∈ fs, DeP o f) : DeP o (.union fs
     simp only [wf, Bool.and_eq_true, decide_eq_true_eq] at hw
     simp only [wfC] at hwC
     have htb := tagBits_cases fs.length
-    apply topDe_fnOK _ _ _ (.union fs) (fun bs =>
+    apply topDe_fnOK o _ _ _ (.union fs) (fun bs =>
       if readNat (tagBits fs.length) bs ≥ fs.length then .error .badUnionTag
       else
         match Dsdl.deNth fs (readNat (tagBits fs.length) bs) (bs.drop (tagBits fs.length)) with
@@ -383,6 +387,7 @@ theorem deP (t : Ty) : DeP o t := by
     by_cases hk : k > c
     · simp [hk, DeRefines, embedD]
     · simp only [hk, if_false]
+      rw [assertC_ok o (fun ho => hs.aligned (adm_add hd (adm_single (prefixBits c))) ho)]
       have h2 := deElems_refines o hs t ih.1 hw.2 hwC buf cap hwf hcap d (resBits (.varr t c)) c
         (fun x hx => by simpa [resBits] using adm_rangeRep_zero hx) k c (off + prefixBits c)
         (adm_congr (by omega) hd) (by omega) (by omega)
